@@ -597,4 +597,264 @@ theorem doc_rt_owner_r234_restores (P : Prims) (hP : PrimsOK P) (d enc : Doc) (c
   · rw [hfid]; simp only [Option.getD_some]
     rw [owner_key_r234 P (algOf st) fid c.ownerPw c.userPw hr hb.hO hb.hU]; exact hb.hK
 
+
+/-! ### revisions 5 and 6 -/
+
+/-- `compute_hash` depends on the algorithm state only through its revision -/
+def hashRev (P : Prims) (rev : Nat) (pw salt udata : Bytes) : Bytes :=
+  if rev = 5 then P.sha256 (pw ++ salt ++ udata) else hash2B P pw salt udata
+
+theorem hash_eq_hashRev (P : Prims) (a : Alg) : a.hash P = hashRev P a.revision := by
+  funext pw salt u; rfl
+
+def permsPlainOf (perms : Nat) (em : Bool) (rnd : Bytes) : Bytes :=
+  leBytes 8 (pValue perms) ++ [if em then 84 else 70] ++ PERMS_TAG ++ rnd.take 4
+
+/-- the state the R5 / V5 arms of `try_from` build -/
+def build6 (P : Prims) (rev : Nat) (c : Config) (rnd : Rand) : EncState :=
+  let tu := trunc127 c.userPw
+  let to := trunc127 c.ownerPw
+  let u := hashRev P rev tu (rnd.uSalts.take 8) [] ++ rnd.uSalts.take 8 ++ slice rnd.uSalts 8 8
+  let o := hashRev P rev to (rnd.oSalts.take 8) u ++ rnd.oSalts.take 8 ++ slice rnd.oSalts 8 8
+  { version := 5, revision := rev, keyLength := none, encryptMetadata := c.encryptMetadata,
+    cryptFilters := c.cryptFilters, fileKey := c.fileKey, stmF := c.stmF, strF := c.strF,
+    ownerValue := o, ownerEncrypted := cbc0Enc P (hashRev P rev to (slice rnd.oSalts 8 8) u) c.fileKey,
+    userValue := u, userEncrypted := cbc0Enc P (hashRev P rev tu (slice rnd.uSalts 8 8) []) c.fileKey,
+    permissions := c.permissions,
+    permsEncrypted := P.aesEnc c.fileKey (permsPlainOf c.permissions c.encryptMetadata rnd.permsRnd) }
+
+theorem stateOfConfig_r5 (P : Prims) (c : Config) (fid : Bytes) (rnd : Rand) (hv : c.ver = .r5) (hk : c.fileKey.length = 32) :
+    stateOfConfig P c fid rnd = .ok (build6 P 5 c rnd) := by
+  simp only [stateOfConfig, hv, hk]
+  rfl
+theorem stateOfConfig_v5 (P : Prims) (c : Config) (fid : Bytes) (rnd : Rand) (hv : c.ver = .v5) (hk : c.fileKey.length = 32) :
+    stateOfConfig P c fid rnd = .ok (build6 P 6 c rnd) := by
+  simp only [stateOfConfig, hv, hk]
+  rfl
+
+
+theorem hash2BLoop_len (P : Prims) (hP : PrimsOK P) (pw udata : Bytes) (left round : Nat) (k : Bytes)
+    (hk : 32 ≤ k.length) : 32 ≤ (hash2BLoop P pw udata left round k).length := by
+  induction left generalizing round k with
+  | zero => exact hk
+  | succ l ih =>
+    have hr : 32 ≤ (hash2BRound P pw udata k).1.length := by
+      simp only [hash2BRound]
+      split
+      · rw [hP.sha256_len]; omega
+      · split
+        · exact hP.sha384_len _
+        · exact hP.sha512_len _
+    simp only [hash2BLoop]
+    split
+    · exact hr
+    · exact ih _ _ hr
+
+theorem hashRev_len (P : Prims) (hP : PrimsOK P) (rev : Nat) (x s u : Bytes) : (hashRev P rev x s u).length = 32 := by
+  unfold hashRev
+  split
+  · exact hP.sha256_len _
+  · unfold hash2B
+    have := hash2BLoop_len P hP x u 287 1 (P.sha256 (x ++ s ++ u)) (by rw [hP.sha256_len]; omega)
+    rw [List.length_take]; omega
+
+theorem cbc0_rt (P : Prims) (hP : PrimsOK P) (k d : Bytes) (hd : d.length = 32) : cbc0Dec P k (cbc0Enc P k d) = d := by
+  unfold cbc0Dec cbc0Enc
+  exact cbc_dec_enc _ _ (hP.block k).enc_len (hP.block k).dec_enc _ d (by simp) (by omega)
+
+theorem cbc0Enc_len (P : Prims) (hP : PrimsOK P) (k d : Bytes) (hd : d.length = 32) : (cbc0Enc P k d).length = 32 := by
+  unfold cbc0Enc; rw [cbcEnc_length _ (hP.block k).enc_len]; omega
+
+/-- the 48-byte U / O strings: hash ‖ validation salt ‖ key salt -/
+theorem salted (h salts : Bytes) (hh : h.length = 32) (hs : 16 ≤ salts.length) :
+    (h ++ salts.take 8 ++ slice salts 8 8).length = 48 ∧
+    slice (h ++ salts.take 8 ++ slice salts 8 8) 32 8 = salts.take 8 ∧
+    slice (h ++ salts.take 8 ++ slice salts 8 8) 40 8 = slice salts 8 8 ∧
+    (h ++ salts.take 8 ++ slice salts 8 8).take 32 = h := by
+  have l1 : (salts.take 8).length = 8 := by simp; omega
+  have l2 : (slice salts 8 8).length = 8 := by simp [slice]; omega
+  refine ⟨by simp [hh, l1, l2], ?_, ?_, ?_⟩
+  · unfold slice at *
+    rw [List.append_assoc, List.drop_append_of_le_length (by omega), List.drop_of_length_le (by omega)]
+    simp [List.take_append_of_le_length, l1]
+  · have : (h ++ salts.take 8).length = 40 := by simp [hh, l1]
+    unfold slice at *
+    rw [List.drop_append_of_le_length (by omega), List.drop_of_length_le (by omega)]
+    simp [List.take_take]
+  · rw [List.append_assoc, List.take_append_of_le_length (by omega), List.take_of_length_le (by omega)]
+
+
+theorem validatePerms_plain (P : Prims) (hP : PrimsOK P) (a : Alg) (key rnd : Bytes) (hr : 4 ≤ rnd.length)
+    (h : a.permsEncrypted = P.aesEnc key (permsPlainOf a.permissions a.encryptMetadata rnd)) :
+    a.validatePerms P key = .ok () := by
+  have e : PERMS_TAG = [0x61, 0x64, 0x62] := by decide
+  have l8 : (leBytes 8 (pValue a.permissions)).length = 8 := by simp [leBytes]
+  have hb : (permsPlainOf a.permissions a.encryptMetadata rnd).length = 16 := by
+    simp [permsPlainOf, l8, e]; omega
+  unfold Alg.validatePerms
+  rw [h, (hP.block key).dec_enc _ hb]
+  have s1 : slice (permsPlainOf a.permissions a.encryptMetadata rnd) 9 3 = PERMS_TAG := by
+    simp [permsPlainOf, slice, leBytes, e]
+  have s2 : (permsPlainOf a.permissions a.encryptMetadata rnd).take 3 = (leBytes 8 (pValue a.permissions)).take 3 := by
+    simp [permsPlainOf, leBytes]
+  have s3 : slice (permsPlainOf a.permissions a.encryptMetadata rnd) 8 1 = [if a.encryptMetadata then 84 else 70] := by
+    simp [permsPlainOf, slice, leBytes, e]
+  simp [s1, s2, s3]
+
+/-- the R5 / V5 configurations (and the random bytes `try_from` draws) the property quantifies over -/
+structure Cfg6 (c : Config) (rnd : Rand) (rev : Nat) : Prop where
+  ver : (c.ver = .r5 ∧ rev = 5) ∨ (c.ver = .v5 ∧ rev = 6)
+  key : c.fileKey.length = 32
+  us : 16 ≤ rnd.uSalts.length
+  os : 16 ≤ rnd.oSalts.length
+  pr : 4 ≤ rnd.permsRnd.length
+  perm : c.permissions &&& PERM_ALL = c.permissions
+  nodup : (c.cryptFilters.map (·.1)).Nodup
+
+theorem build6_ok (P : Prims) (hP : PrimsOK P) (c : Config) (rnd : Rand) (rev : Nat) (h : Cfg6 c rnd rev) :
+    StateOK (build6 P rev c rnd) := by
+  have hrev : rev = 5 ∨ rev = 6 := by rcases h.ver with ⟨_, r⟩ | ⟨_, r⟩ <;> simp [r]
+  have hu := salted (hashRev P rev (trunc127 c.userPw) (rnd.uSalts.take 8) []) rnd.uSalts (hashRev_len P hP _ _ _ _) h.us
+  refine ⟨Or.inr (Or.inr (Or.inr ⟨rfl, hrev, rfl⟩)), fun hv => by simp [build6] at hv, fun hr => ?_, fun _ => ?_, h.perm,
+    fun hv => by simp [build6] at hv, h.nodup⟩
+  · simp only [build6] at hr; omega
+  · refine ⟨(salted _ rnd.oSalts (hashRev_len P hP _ _ _ _) h.os).1, hu.1, cbc0Enc_len P hP _ _ h.key, cbc0Enc_len P hP _ _ h.key, ?_⟩
+    simp [build6, (hP.block c.fileKey).enc_len]
+
+/-- an algorithm state whose U / UE / O / OE / Perms entries are those Algorithms 8, 9 and 10 (as
+coded) produce for the passwords `userPw` / `ownerPw` and the key `key` -/
+structure Built6 (P : Prims) (a : Alg) (key userPw ownerPw uS oS rnd : Bytes) : Prop where
+  rev : a.revision = 5 ∨ a.revision = 6
+  klen : key.length = 32
+  us : 16 ≤ uS.length
+  os : 16 ≤ oS.length
+  pr : 4 ≤ rnd.length
+  hU : a.userValue = hashRev P a.revision (trunc127 userPw) (uS.take 8) [] ++ uS.take 8 ++ slice uS 8 8
+  hUE : a.userEncrypted = cbc0Enc P (hashRev P a.revision (trunc127 userPw) (slice uS 8 8) []) key
+  hO : a.ownerValue = hashRev P a.revision (trunc127 ownerPw) (oS.take 8) a.userValue ++ oS.take 8 ++ slice oS 8 8
+  hOE : a.ownerEncrypted = cbc0Enc P (hashRev P a.revision (trunc127 ownerPw) (slice oS 8 8) a.userValue) key
+  hPerms : a.permsEncrypted = P.aesEnc key (permsPlainOf a.permissions a.encryptMetadata rnd)
+
+section built6
+variable (P : Prims) (hP : PrimsOK P) (a : Alg) (key userPw ownerPw uS oS rnd : Bytes)
+variable (hb : Built6 P a key userPw ownerPw uS oS rnd)
+include hP hb
+
+theorem dispatch56 (fid pw : Bytes) :
+    a.fileKey P fid pw = a.fileKeyR6 P pw ∧ a.authOwner P fid pw = a.authOwnerR6 P pw ∧
+    a.authUser P fid pw = a.authUserR6 P pw := by
+  have h4 : (decide (2 ≤ a.revision) && decide (a.revision ≤ 4)) = false := by rcases hb.rev with r | r <;> simp [r]
+  have h56 : (decide (a.revision = 5) || decide (a.revision = 6)) = true := by rcases hb.rev with r | r <;> simp [r]
+  simp [Alg.fileKey, Alg.authOwner, Alg.authUser, h4, h56]
+
+theorem authOwnerR6_built : a.authOwnerR6 P ownerPw = .ok () := by
+  have ho := salted _ oS (hashRev_len P hP a.revision (trunc127 ownerPw) (oS.take 8) a.userValue) hb.os
+  unfold Alg.authOwnerR6
+  rw [hash_eq_hashRev, hb.hO, ho.2.1, ho.2.2.2]
+  simp
+
+theorem authUserR6_built : a.authUserR6 P userPw = .ok () := by
+  have hu := salted _ uS (hashRev_len P hP a.revision (trunc127 userPw) (uS.take 8) []) hb.us
+  unfold Alg.authUserR6
+  rw [hash_eq_hashRev, hb.hU, hu.2.1, hu.2.2.2]
+  simp
+
+theorem fileKeyR6_owner_built : a.fileKeyR6 P ownerPw = .ok key := by
+  have ho := salted _ oS (hashRev_len P hP a.revision (trunc127 ownerPw) (oS.take 8) a.userValue) hb.os
+  unfold Alg.fileKeyR6
+  simp only [hash_eq_hashRev]
+  rw [hb.hO, ho.2.1, ho.2.2.2, ho.2.2.1]
+  simp only [↓reduceIte]
+  rw [hb.hOE, cbc0_rt P hP _ _ hb.klen]
+
+/-- the user password yields the key too, unless it passes the OWNER test without being (after
+truncation) the owner password — a hash coincidence, excluded by hypothesis `hno` -/
+theorem fileKeyR6_user_built
+    (hno : hashRev P a.revision (trunc127 userPw) (oS.take 8) a.userValue
+             = hashRev P a.revision (trunc127 ownerPw) (oS.take 8) a.userValue → trunc127 userPw = trunc127 ownerPw) :
+    a.fileKeyR6 P userPw = .ok key := by
+  have ho := salted _ oS (hashRev_len P hP a.revision (trunc127 ownerPw) (oS.take 8) a.userValue) hb.os
+  have hu := salted _ uS (hashRev_len P hP a.revision (trunc127 userPw) (uS.take 8) []) hb.us
+  have hOslice : slice a.ownerValue 32 8 = oS.take 8 := by rw [hb.hO]; exact ho.2.1
+  have hOkey : slice a.ownerValue 40 8 = slice oS 8 8 := by rw [hb.hO]; exact ho.2.2.1
+  have hOtake : a.ownerValue.take 32 = hashRev P a.revision (trunc127 ownerPw) (oS.take 8) a.userValue := by
+    rw [hb.hO]; exact ho.2.2.2
+  have hUslice : slice a.userValue 32 8 = uS.take 8 := by rw [hb.hU]; exact hu.2.1
+  have hUkey : slice a.userValue 40 8 = slice uS 8 8 := by rw [hb.hU]; exact hu.2.2.1
+  have hUtake : a.userValue.take 32 = hashRev P a.revision (trunc127 userPw) (uS.take 8) [] := by
+    rw [hb.hU]; exact hu.2.2.2
+  unfold Alg.fileKeyR6
+  simp only [hash_eq_hashRev, hOslice, hOkey, hOtake, hUslice, hUkey, hUtake]
+  split
+  · rename_i heq
+    rw [hno heq, hb.hOE, cbc0_rt P hP _ _ hb.klen]
+  · simp only [↓reduceIte]
+    rw [hb.hUE, cbc0_rt P hP _ _ hb.klen, validatePerms_plain P hP a key rnd hb.pr hb.hPerms]
+
+end built6
+
+theorem built6_of_build6 (P : Prims) (c : Config) (rnd : Rand) (rev : Nat) (h : Cfg6 c rnd rev) :
+    Built6 P (algOf (build6 P rev c rnd)) c.fileKey c.userPw c.ownerPw rnd.uSalts rnd.oSalts rnd.permsRnd := by
+  have hrev : rev = 5 ∨ rev = 6 := by rcases h.ver with ⟨_, r⟩ | ⟨_, r⟩ <;> simp [r]
+  exact ⟨hrev, h.key, h.us, h.os, h.pr, rfl, rfl, rfl, rfl, rfl⟩
+
+/-- **doc_rt_owner, revisions 5 and 6**: `decrypt_raw(owner password)` after `encrypt` restores the
+document, for every document, configuration, password pair, salts and IVs. -/
+theorem doc_rt_owner_r56 (P : Prims) (hP : PrimsOK P) (d enc : Doc) (c : Config) (rnd : Rand) (rev : Nat) (ivs : IVs)
+    (h : Cfg6 c rnd rev) (hiv : ∀ n, (ivs n).length = 16) (htr : Dict.get d.trailer K_ENCRYPT = none)
+    (hfresh : ∀ e ∈ d.objects, e.1 ≠ (d.maxId + 1, 0))
+    (henc : d.encrypt P (build6 P rev c rnd) ivs = .ok enc) :
+    enc.decryptRaw P c.ownerPw = .ok (restored (build6 P rev c rnd) d) := by
+  have hrev : rev = 5 ∨ rev = 6 := by rcases h.ver with ⟨_, r⟩ | ⟨_, r⟩ <;> simp [r]
+  have hb := built6_of_build6 P c rnd rev h
+  have hd := dispatch56 P hP _ _ _ _ _ _ _ hb
+  apply doc_rt P d enc _ ivs c.ownerPw hP.block hiv (build6_ok P hP c rnd rev h) htr hfresh
+    (fun hr => by simp only [build6] at hr; omega) henc
+  · unfold Alg.authAny
+    rw [(hd _ _).2.1, authOwnerR6_built P hP _ _ _ _ _ _ _ hb]
+  · rw [(hd _ _).1]; exact fileKeyR6_owner_built P hP _ _ _ _ _ _ _ hb
+
+/-- **doc_rt_user, revisions 5 and 6**: the same with the user password (hypothesis `hno`: the user
+password does not pass the owner test unless it is the owner password — no hash coincidence). -/
+theorem doc_rt_user_r56 (P : Prims) (hP : PrimsOK P) (d enc : Doc) (c : Config) (rnd : Rand) (rev : Nat) (ivs : IVs)
+    (h : Cfg6 c rnd rev) (hiv : ∀ n, (ivs n).length = 16) (htr : Dict.get d.trailer K_ENCRYPT = none)
+    (hfresh : ∀ e ∈ d.objects, e.1 ≠ (d.maxId + 1, 0))
+    (henc : d.encrypt P (build6 P rev c rnd) ivs = .ok enc)
+    (hno : hashRev P rev (trunc127 c.userPw) (rnd.oSalts.take 8) (build6 P rev c rnd).userValue
+             = hashRev P rev (trunc127 c.ownerPw) (rnd.oSalts.take 8) (build6 P rev c rnd).userValue →
+           trunc127 c.userPw = trunc127 c.ownerPw) :
+    enc.decryptRaw P c.userPw = .ok (restored (build6 P rev c rnd) d) := by
+  have hb := built6_of_build6 P c rnd rev h
+  have hd := dispatch56 P hP _ _ _ _ _ _ _ hb
+  apply doc_rt P d enc _ ivs c.userPw hP.block hiv (build6_ok P hP c rnd rev h) htr hfresh
+    (fun hr => by have hrev : rev = 5 ∨ rev = 6 := by (rcases h.ver with ⟨_, r⟩ | ⟨_, r⟩ <;> simp [r])
+                  simp only [build6] at hr; omega) henc
+  · apply authAny_ok_of_user
+    rw [(hd _ _).2.2]; exact authUserR6_built P hP _ _ _ _ _ _ _ hb
+  · rw [(hd _ _).1]; exact fileKeyR6_user_built P hP _ _ _ _ _ _ _ hb hno
+
+
+/-- the same two theorems stated on the result of `try_from` (`stateOfConfig`) -/
+theorem doc_rt_r56_of_config (P : Prims) (hP : PrimsOK P) (d enc : Doc) (c : Config) (fid : Bytes) (rnd : Rand)
+    (rev : Nat) (st : EncState) (ivs : IVs)
+    (h : Cfg6 c rnd rev) (hst : stateOfConfig P c fid rnd = .ok st)
+    (hiv : ∀ n, (ivs n).length = 16) (htr : Dict.get d.trailer K_ENCRYPT = none)
+    (hfresh : ∀ e ∈ d.objects, e.1 ≠ (d.maxId + 1, 0)) (henc : d.encrypt P st ivs = .ok enc) :
+    enc.decryptRaw P c.ownerPw = .ok (restored st d) ∧
+    ((hashRev P rev (trunc127 c.userPw) (rnd.oSalts.take 8) st.userValue
+        = hashRev P rev (trunc127 c.ownerPw) (rnd.oSalts.take 8) st.userValue → trunc127 c.userPw = trunc127 c.ownerPw) →
+      enc.decryptRaw P c.userPw = .ok (restored st d)) := by
+  have hst' : st = build6 P rev c rnd := by
+    rcases h.ver with ⟨hv, hr⟩ | ⟨hv, hr⟩
+    · rw [stateOfConfig_r5 P c fid rnd hv h.key] at hst; injection hst with hst; rw [← hst, hr]
+    · rw [stateOfConfig_v5 P c fid rnd hv h.key] at hst; injection hst with hst; rw [← hst, hr]
+  subst hst'
+  exact ⟨doc_rt_owner_r56 P hP d enc c rnd rev ivs h hiv htr hfresh henc,
+         fun hno => doc_rt_user_r56 P hP d enc c rnd rev ivs h hiv htr hfresh henc hno⟩
+
+/-- non-vacuity: the witness instance of the primitives satisfies `PrimsOK` -/
+theorem toy_primsOK : PrimsOK toy :=
+  ⟨toy_blockOK, fun x => by simp [toy, fit], fun x => by simp [toy, fit], fun x => by simp [toy, fit],
+   fun x => by simp [toy, fit]⟩
+
 end Lopdf.Crypt
